@@ -1496,7 +1496,7 @@ class Stage:
         include_first = True
         if grid.startswith('-'):
             grid = grid[1:]
-            include_last = False
+            include_first = False
         if grid.endswith('-'):
             grid = grid[:-1]
             include_last = False
@@ -1584,6 +1584,11 @@ class Stage:
         cat = vcat if transpose else hcat
         res = cat(sub_expr)
         time = stage._method.control_grid
+        # The time vector has one entry per returned value
+        if not include_last:
+            time = time[:-1]
+        if not include_first:
+            time = time[1:]
         return time, res
 
     def _grid_integrator(self, stage, expr, grid, include_first=True, include_last=True):
@@ -1595,9 +1600,12 @@ class Stage:
             for l in range(stage._method.M):
                 sub_expr.append(stage._method.eval_at_integrator(stage, expr, k, l))
             time.append(stage._method.integrator_grid[k])
+        time = vcat(time)
         if include_last:
             sub_expr.append(stage._method.eval_at_control(stage, expr, -1))
-        return vcat(time), hcat(sub_expr)
+        else:
+            time = time[:-1] # The time vector has one entry per returned value
+        return time, hcat(sub_expr)
 
 
     def _grid_integrator_roots(self, stage, expr, grid, include_first=True, include_last=True):
